@@ -52,6 +52,29 @@ class LoopClause:
         self.mode = mode
 
 
+class Poison:
+    """A local the loop assigns but the loop invariant says nothing about: using it before it is assigned
+    again means the contract no longer describes the loop (undecided, never a verdict)."""
+
+    def __init__(self, name):
+        self.name = name
+
+
+def loop_assigned_names(loop):
+    """names stored anywhere inside a loop statement"""
+    out = set()
+    for n in ast.walk(loop):
+        if isinstance(n, ast.Name) and isinstance(n.ctx, ast.Store):
+            out.add(n.id)
+    return out
+
+
+def nth_loop(fn_ast, ordinal, kind=(ast.While,)):
+    loops = [n for n in ast.walk(fn_ast) if isinstance(n, kind)]
+    loops.sort(key=lambda n: (n.lineno, n.col_offset))
+    return loops[ordinal] if ordinal < len(loops) else None
+
+
 class LoopCut(Exception):
     """Raised after the inductive step of a loop has been checked (path ends)."""
 
@@ -560,6 +583,9 @@ class Interp:
     def e_Name(self, e, frame):
         f, v = frame.lookup(e.id)
         if f is not None:
+            if isinstance(v, Poison):
+                raise Undecided("the loop carries the local `%s` from one iteration to the next and the loop invariant "
+                                "of the contract does not describe it" % v.name)
             return v
         return self.rt.global_lookup(self, frame, e.id, e)
 
